@@ -250,7 +250,10 @@ class RawField(Field):
         pfx = "%d" % self.count if self.count > 0 else ""
         tn = self.typename
         if psize and tn in ('P','L','l'):
+            signed = (tn == 'l')
             tn = {4:'I',8:'Q',32:'I',64:'Q'}.get(psize,tn)
+            if signed:
+                tn = tn.lower()
         res = struct.unpack(
             self.order + pfx + tn,
             data[offset : offset + self.size(psize)]
@@ -264,7 +267,10 @@ class RawField(Field):
     def pack(self, value, psize=0):
         fmt = self.typename
         if psize and fmt in ('P','L','l'):
+            signed = (fmt == 'l')
             fmt = {4:'I',8:'Q',32:'I',64:'Q'}.get(psize,fmt)
+            if signed:
+                fmt = fmt.lower()
         pfx = "%d" % self.count if self.count > 0 else ""
         order = self.ORDER if hasattr(self, "ORDER") else self.order
         if fmt=='c' and isinstance(value,bytes):
